@@ -42,7 +42,7 @@ import ctypes
 from .. import hist, pool
 from ..build import InfraError
 from . import _c19x
-from ._c19x import get_ffi, FB_TYPES
+from ._c19x import get_ffi
 
 ID = "C19"
 LEVEL = "model_checking"
@@ -215,17 +215,16 @@ def _gen_ops(bufwin):
         out.append((1, ("mm",) + m))
         seen.add(m)
     for dk, sk in [(d, s_) for d in ("c", "y", "b") for s_ in ("c", "y", "b", "x")] + [("i", "v"), ("v", "i")]:
-        if True:
-            for n_ in range(N + 1):
-                for doff in range(N - n_ + 1):
-                    for soff in range(N - n_ + 1):
-                        m = (dk, doff, sk, soff, n_)
-                        if m in seen:
-                            continue
-                        # wide: every triple whose ranges overlap by exactly one byte or fully, or touch an end
-                        wide = (dk, sk) in (("c", "c"), ("y", "b"), ("b", "y")) and n_ in (1, 5, 11) and \
-                            doff in (0, 1, N - n_) and soff in (0, 1, N - n_)
-                        out.append((2 if wide else 3, ("mm",) + m))
+        for n_ in range(N + 1):
+            for doff in range(N - n_ + 1):
+                for soff in range(N - n_ + 1):
+                    m = (dk, doff, sk, soff, n_)
+                    if m in seen:
+                        continue
+                    # wide: every triple whose ranges overlap by exactly one byte or fully, or touch an end
+                    wide = (dk, sk) in (("c", "c"), ("y", "b"), ("b", "y")) and n_ in (1, 5, 11) and \
+                        doff in (0, 1, N - n_) and soff in (0, 1, N - n_)
+                    out.append((2 if wide else 3, ("mm",) + m))
     for k, v in ((4, 0x99), (0, 0x77), (11, 0x55)):
         out.append((lv(k == 4), ("poke", k, v)))
     # deletion, three-part slices, value / index object kinds, other slots of the buffer type, more from_buffer
